@@ -38,11 +38,11 @@ type casRule struct {
 }
 
 type casRoot struct {
-	Kind    int  `json:"kind"`
-	Wait    bool `json:"wait"`
-	PauseNs int  `json:"pause,omitempty"`
-	Scope   int  `json:"scope,omitempty"`             // index into the plan's scopes (0 = default scope)
-	Late    bool `json:"set_after_monitor,omitempty"` // the fail-on-first-error setting gets its final value after the root monitor was created
+	Kind        int  `json:"kind"`
+	Wait        bool `json:"wait"`
+	PauseNs     int  `json:"pause,omitempty"`
+	Scope       int  `json:"scope,omitempty"`               // index into the plan's scopes (0 = default scope)
+	Late        bool `json:"set_after_monitor,omitempty"`   // the fail-on-first-error setting gets its final value after the root monitor was created
 	LateHandler bool `json:"late_finish_handler,omitempty"` // (AddEvent only) the finish handler is attached after AddEvent returned, while the cascade is still running
 }
 
